@@ -1,5 +1,6 @@
 import JwtProofs.Decode
 import JwtModel.Encode
+import Props.FnTie
 /-!
 # C05 — header / version / kind gate on decoding; Encode always writes the v2 envelope
 
